@@ -170,9 +170,11 @@ func hwmonRun(ctx *Ctx, in hwmonIn) (hwmonObs, string, []string) {
 	for i, ch := range in.Chips {
 		platform[ch.Id] = fmt.Sprintf("%s-isa-%d%03x", ch.Name, 0, 0x290+i)
 	}
+	present := map[int]bool{} // chips GetChips did not skip
 	for _, c := range hwmon.GetChips() {
 		if id, ok := dirs[c.Path]; ok {
 			platform[id] = c.Platform
+			present[id] = true
 		}
 	}
 
@@ -205,8 +207,10 @@ func hwmonRun(ctx *Ctx, in hwmonIn) (hwmonObs, string, []string) {
 		for _, ch := range in.Chips {
 			if ok, _ := regexp.MatchString("(?i)"+p, platform[ch.Id]); ok {
 				matchPairs = append(matchPairs, "("+cZ(id)+", "+cZ(ch.Id)+")")
-				matchCount[id]++
-				matched[id] = append(matched[id], ch.Id)
+				if present[ch.Id] { // tags only: chips without any usable feature are not controllers
+					matchCount[id]++
+					matched[id] = append(matched[id], ch.Id)
+				}
 			}
 		}
 	}
